@@ -897,7 +897,7 @@ class Gen:
             return False
         A = self.arr(a)
         sh = list(A.shape)
-        kind = r.choice(["bin", "axis", "getitem", "setitem", "aug", "reshape", "matmul", "setitem_view", "setshape", "setshape"])
+        kind = r.choice(["bin", "axis", "getitem", "setitem", "aug", "reshape", "matmul", "setitem_view", "setshape", "setshape", "clipout"])
         h = self.nh + 1
         if kind == "bin":
             bad = [d + 1 if d > 1 else 3 for d in sh]
@@ -936,6 +936,15 @@ class Gen:
             else:
                 t = r.choice(c)
                 s = {"k": "setshape", "t": t, "sh": r.choice([[self.arr(t).size], [-1], [self.arr(t).size + 1]])}
+        elif kind == "clipout":
+            # a two-step function writing into out=: the SECOND bound does not broadcast - nothing may have been written
+            c = [q for q in self.live() if list(self.arr(q).shape) == sh and q != a and q not in self.readonly
+                 and self.arr(q).flags.writeable and self.arr(q).dtype.kind == "f" and not self.const[q]]
+            if not c or A.dtype.kind != "f":
+                return False
+            bad = [d + 2 for d in sh]
+            s = {"k": "uout", "f": "clip", "a": [{"h": a}, {"s": R(-1)}, {"arr": {"sh": bad, "v": [R(1)] * int(np.prod(bad))}}],
+                 "out": r.choice(c)}
         elif kind == "aug":
             bad = [d + 2 for d in sh]
             s = {"k": "aug", "t": a, "f": "add", "val": {"arr": {"sh": bad, "v": [R(1)] * int(np.prod(bad))}}}
